@@ -171,8 +171,8 @@ Proof.
   destruct (_ || _ || _).
   - destruct (if (nbeg st <? 0)%Z then _ else _) as [beg ps].
     destruct (feed_chars ps _) as [[|] ps']; [intros [= <-]; assumption|].
-    destruct (N.eqb _ _); [intros [= <-]; assumption|].
-    destruct (N.eqb _ _); intros [= <-]; assumption.
+    destruct (N.eqb _ _ && _); [intros [= <-]; assumption|].
+    destruct (N.eqb _ _ && _); intros [= <-]; assumption.
   - destruct (Z.leb 0 (nbeg st)).
     + destruct (p_done gen_cfg (nps st)) as [[|] ps'].
       * destruct (num_concat _ _ _ _ _ _) as [p'| |] eqn:E; try discriminate.
